@@ -307,7 +307,7 @@ def planner_family(ctx, prop, mc_extra_props=(), qdeps=2):
     if ctx.quick():
         r = planner_mc(ctx, planner_consts(3, "{1,2}", "{1,3}", qdeps), invs_m, label="q", properties=mc_extra_props)
         planner_s2i(ctx, r["replay"], invs_t, variants=2)
-        planner_i2s(ctx, invs_t, count=40, nmin=4, nmax=40, nres=8)
+        planner_i2s(ctx, invs_t, count=40, nmin=4, nmax=40, nres=8, extra=["--boundary"])
         planner_i2s(ctx, invs_t, count=6, nmin=100, nmax=300, nres=14, extra=["--pbatch", 0.03], seed_off=1)
     else:
         r = planner_mc(ctx, planner_consts(3, "{1,2}", "{1,3,5}", 2, unnamed=True), invs_m, label="t1", properties=mc_extra_props)
@@ -316,7 +316,7 @@ def planner_family(ctx, prop, mc_extra_props=(), qdeps=2):
         planner_s2i(ctx, r["replay"], invs_t, variants=2)
         r = planner_mc(ctx, planner_consts(3, "{1,2,3}", "{3}", 1), invs_m, label="t3")
         planner_s2i(ctx, r["replay"], invs_t, variants=3)
-        planner_i2s(ctx, invs_t, count=400, nmin=4, nmax=60, nres=10)
+        planner_i2s(ctx, invs_t, count=400, nmin=4, nmax=60, nres=10, extra=["--boundary"])
         planner_i2s(ctx, invs_t, count=40, nmin=100, nmax=400, nres=16, extra=["--pbatch", 0.03], seed_off=1)
     # the library built without debug assertions / overflow checks (what --release gives): random programs again
     with nodebug_pass(ctx):
@@ -340,13 +340,13 @@ def exec_family(ctx, prop, extra=(), nopar=False, mc=("flat",), mc_thorough=(), 
     for m in mc + (() if ctx.quick() else tuple(mc_thorough)):
         exec_mc(ctx, m, EXEC_MODEL_INVS[prop])
     if ctx.quick():
-        exec_i2s(ctx, invs, count=40, nmin=3, nmax=30, dispatches=3, extra=extra)
+        exec_i2s(ctx, invs, count=40, nmin=3, nmax=30, dispatches=3, extra=list(extra) + ["--boundary"])
         if big:
             exec_i2s(ctx, invs, count=4, nmin=60, nmax=150, nres=12, dispatches=2, extra=list(extra) + ["--gated", 0.5], seed_off=1)
         if nopar:
             exec_i2s(ctx, invs, count=20, nmin=3, nmax=30, dispatches=2, extra=extra, parallel=False, seed_off=2)
     else:
-        exec_i2s(ctx, invs, count=400, nmin=3, nmax=40, dispatches=4, extra=extra)
+        exec_i2s(ctx, invs, count=400, nmin=3, nmax=40, dispatches=4, extra=list(extra) + ["--boundary"])
         if big:
             exec_i2s(ctx, invs, count=30, nmin=60, nmax=300, nres=14, dispatches=2, extra=list(extra) + ["--gated", 0.5], seed_off=1)
         if nopar:
@@ -581,7 +581,7 @@ def check_C18(ctx):
     if ctx.quick():
         r = planner_mc(ctx, planner_consts(3, "{1,2}", "{1,3}", 1), PLANNER_INVS["C18"], label="q")
         planner_s2i(ctx, r["replay"], invs, variants=1)
-        planner_i2s(ctx, invs, count=60, nmin=4, nmax=40, nres=6, extra=["--pill", 0.2, "--pbatch", 0.2])
+        planner_i2s(ctx, invs, count=60, nmin=4, nmax=40, nres=6, extra=["--pill", 0.2, "--pbatch", 0.2, "--boundary"])
         planner_i2s(ctx, invs, count=6, nmin=150, nmax=400, nres=10, extra=["--pill", 0.03], seed_off=1)
         # funnel: many conflicting systems with all running-time hints over very few resources
         planner_i2s(ctx, invs, count=30, nmin=20, nmax=80, nres=2, extra=["--pdep", 0.05, "--funnel", 300], seed_off=2)
